@@ -220,6 +220,34 @@ fn seq_families(tier: Tier, _seed: u64) -> Vec<Family<ExPlan>> {
             }
             plan
         }));
+        // one transient write error (EINTR / EAGAIN / ETIMEDOUT) at every byte position of the client's
+        // output (command + answers) of a short exchange of every sequence
+        {
+            let mut list: Vec<(SeqId, u32)> = vec![];
+            let script_of = |id: SeqId| -> Vec<Cf> {
+                let info = seqs::info(id);
+                if info.single_reply {
+                    vec![info.finals[0]]
+                } else {
+                    info.non_final.iter().take(1).copied().chain(std::iter::once(info.finals[0])).collect()
+                }
+            };
+            for id in ALL_SEQS {
+                let p = ExPlan::clean(id, InParams::fixed(), frames_for(id, &script_of(id), 3));
+                let n = crate::exchange::execute(&p).handle.written().len() as u32;
+                for off in 0..n {
+                    list.push((id, off));
+                }
+            }
+            let n = list.len() as u64;
+            fams.push(Family::new("transient_write_error_at_every_byte_of_the_output", n * 3, true, move |i, _| {
+                let (id, off) = list[(i / 3) as usize];
+                let mut p = ExPlan::clean(id, InParams::fixed(), frames_for(id, &script_of(id), 3));
+                p.write_err = Some((off, (i % 3) as u8));
+                p.fault = "write_err".into();
+                p
+            }));
+        }
         // byte-identical packets in a row: for every sequence and every non-final packet of its alphabet,
         // the packet two and three times, then the final one
         {
@@ -341,6 +369,12 @@ pub fn random_plan(rng: &mut Rng, max_depth: usize) -> ExPlan {
         let len = (plan.stream().len() - plan.tail.len()) as u64;
         plan.read_errs = vec![(rng.below(len + 1) as u32, rng.below(3) as u8)];
         plan.fault = "read_err".into();
+    } else if plan.fault.is_empty() && rng.pct(4) {
+        // one write fails transiently somewhere in the client's output (command or an answer), after a
+        // short write if it falls inside a frame
+        let out_len = 9 + 3 * plan.replies.len() as u64;
+        plan.write_err = Some((rng.below(out_len + 8) as u32, rng.below(3) as u8));
+        plan.fault = "write_err".into();
     }
     plan
 }
@@ -375,6 +409,13 @@ pub fn shrink_explan(plan: &ExPlan) -> Vec<ExPlan> {
         let mut p = plan.clone();
         p.read_errs.clear();
         push(p);
+    }
+    if let Some((off, k)) = plan.write_err {
+        if off > 0 {
+            let mut p = plan.clone();
+            p.write_err = Some((off / 2, k));
+            push(p);
+        }
     }
     if plan.mode != Mode::Lockstep {
         let mut p = plan.clone();
